@@ -43,6 +43,13 @@ class Case:
 def _worker_init():
     # quiet z3 / keep workers single-threaded
     os.environ.setdefault("OMP_NUM_THREADS", "1")
+    # a worker must not outlive the runner (a killed or timed-out check would otherwise leave solvers running)
+    try:
+        import ctypes
+        import signal
+        ctypes.CDLL("libc.so.6", use_errno=True).prctl(1, signal.SIGKILL)      # PR_SET_PDEATHSIG
+    except Exception:
+        pass
 
 
 def run_case(prop_id, case_dict, pins=None):
@@ -53,6 +60,8 @@ def run_case(prop_id, case_dict, pins=None):
         from sx import core, instrument, env as sxenv
         from sx.harness import SymEnv, load_repo
         mod = importlib.import_module("props." + prop_id)
+        yp = getattr(mod, "YIELD_POINTS", False)
+        instrument.YIELD_POINTS = bool(yp.get(os.environ.get("VERIF_TIER_ACTIVE", "quick")) if isinstance(yp, dict) else yp)
         R = load_repo(True)
         sxenv.install_hash_models()
         if hasattr(mod, "setup_sym"):
@@ -185,11 +194,23 @@ def main(argv=None):
             return 1
         return 0 if r.get("status") == "passed" else 2
 
+    os.environ["VERIF_TIER_ACTIVE"] = tier
     cases = mod.cases(tier)
     if a.only:
         cases = [c for c in cases if a.only in c.name]
     random.Random(seed).shuffle(cases)
     cases.sort(key=lambda c: -c.weight)
+    # submission order: heaviest and lightest alternately -- the long cases still start at once (makespan), and the
+    # cheap ones report within seconds, so that a violation stops the run early (fail fast) instead of queueing
+    # behind cases that run into their deadline on a broken tree
+    inter = []
+    lo, hi = 0, len(cases) - 1
+    while lo <= hi:
+        inter.append(cases[lo])
+        if hi != lo:
+            inter.append(cases[hi])
+        lo, hi = lo + 1, hi - 1
+    cases = inter
     results = []
     known, fixed = load_known(prop_id)
     seen_known = {}
@@ -352,7 +373,7 @@ def validate_vectors(prop_id, mod, jobs):
                 f, prm, json.dumps(w)[:120], r["status"], r.get("failed")))
     # symbolic with pinned inputs
     ctx = mp.get_context("spawn")
-    with cf.ProcessPoolExecutor(max_workers=min(jobs, len(vecs)), mp_context=ctx) as ex:
+    with cf.ProcessPoolExecutor(max_workers=min(jobs, len(vecs)), mp_context=ctx, initializer=_worker_init) as ex:
         futs = [ex.submit(run_case, prop_id, dict(name="vec%d" % i, fn=f, params=prm, max_paths=50), w)
                 for i, (f, prm, w) in enumerate(vecs)]
         for (f, prm, w), fu in zip(vecs, futs):
